@@ -9,6 +9,13 @@ import VsgModel.Generated.Rules
 import VsgProofs.Lemmas.Engine
 import VsgProofs.Lemmas.BaseAlign
 import VsgModel.Base.Dispatch
+import VsgProofs.Lemmas.BaseWsEffects
+import VsgModel.Engine.PostPhase1
+import VsgProofs.Lemmas.BaseIndent
+import VsgProofs.Lemmas.BaseBlankLine
+import VsgProofs.Lemmas.BaseBindDispatch
+import VsgProofs.Lemmas.BaseBindEffects
+import VsgProofs.Lemmas.PostPhase1
 namespace Vsgm.C03
 open Vsgm
 
@@ -123,5 +130,402 @@ theorem group_phase : ∀ r ∈ Gen.ruleTable, r.deprecated = false → r.phase 
 
 example : ∃ r ∈ Gen.ruleTable, r.phase = 7 := by decide +kernel
 example : ∃ r ∈ Gen.ruleTable, r.overridesFix = true := by decide +kernel
+
+/-! ### layer B: the whitespace family (≈190 rules: whitespace_between_tokens and everything that inherits
+  its `_fix_violation`, n_spaces_before_and_after_tokens, spaces_before_and_after_tokens_when_bounded_by_tokens,
+  remove_spaces_before_token_rule, whitespace_001/002/005/008, comment_100) — BEGIN ag_bws -/
+
+/-- **whitespace_between_tokens (171 rules), `number_of_spaces ≠ 0`**: for EVERY action and EVERY token list,
+    if the fix returns it changed nothing but one whitespace token — no guard at all -/
+theorem bfix_wsBetween_layoutOnly (params action : Base.KV) (old new : List Tok) (nos : Base.NoS)
+    (hn : Base.nosOf (params.get "number_of_spaces") = .ok nos) (hn0 : nos ≠ .int 0)
+    (h : Base.fixByOwner Base.wsBetweenOwner params action old = some (.ok new)) : LayoutOnly old new := by
+  rw [Base.fixByOwner_ws _ _ _ _ (by decide +kernel)] at h
+  apply Base.ws_layoutOnly _ params action old new (Or.inl (by decide +kernel)) h
+  have hne : (nos == Base.NoS.int 0) = false := by simpa using hn0
+  simp [Base.wsGuard, hn, Base.WsBetween.guard, Base.WsBetween.touched, hne]
+
+/-- with `number_of_spaces = 0` the fix keeps `lTokens[0]` and `lTokens[2]` and drops the rest WHATEVER it is:
+    on a hand-built list whose middle token is code the code token is lost (reproduced on the real class by
+    harness/props_bws.py, synthetic case `nos0-code-middle`); the analysis never records such a violation
+    (`wsBetween_analysis_establishes_guard`) -/
+theorem bfix_wsBetween_zero_not_layoutOnly :
+    ∃ old new, Base.fixByOwner Base.wsBetweenOwner [("number_of_spaces", .int 0)] [("spaces", .int 0)] old = some (.ok new) ∧
+      ¬ LayoutOnly old new :=
+  ⟨[⟨9, .code, "a".toList⟩, ⟨9, .code, "b".toList⟩, ⟨9, .code, "c".toList⟩],
+   [⟨9, .code, "a".toList⟩, ⟨9, .code, "c".toList⟩], by decide +kernel, by decide +kernel⟩
+
+/-- **every strictly-layout owner of the family, all actions, all token lists** — `_partial`: the guard
+    `Base.wsGuard isLayout` says that the old tokens the fix deletes or overwrites are layout tokens
+    (`number_of_spaces = 0`: `lTokens[1]` and `lTokens[3:]`; `adjust` / `remove`: the first / last token;
+    whitespace_001: everything between first and last, and ≥ 2 tokens; 005: the last but one; 008: the last) -/
+theorem bfix_ws_layoutOnly_partial (owner : String) (params action : Base.KV) (old new : List Tok)
+    (ho : owner ∈ Base.wsLayoutOwners) (h : Base.fixByOwner owner params action old = some (.ok new))
+    (hg : Base.wsGuard (fun k => k.isLayout) owner params action old = true) : LayoutOnly old new := by
+  rw [Base.fixByOwner_ws _ _ _ _ (Base.ws_layout_mem owner ho)] at h
+  exact Base.ws_layoutOnly owner params action old new (Or.inl ho) h hg
+
+/-- the two rules that edit comment VALUES (whitespace_002: tabs, comment_100: blank after `--`) together
+    with the rest of the family: non-layout tokens are equal up to blanks / tabs inside comment-like values -/
+theorem bfix_ws_layoutOnlyW_partial (owner : String) (params action : Base.KV) (old new : List Tok)
+    (ho : owner ∈ Base.wsOwners) (h : Base.fixByOwner owner params action old = some (.ok new))
+    (hg : Base.wsGuard (fun k => k.isLayout) owner params action old = true) : Verdict.layoutOnlyW old new = true := by
+  rw [Base.fixByOwner_ws _ _ _ _ ho] at h
+  exact Base.ws_layoutOnlyW owner params action old new ho h hg
+
+/-- the guards are needed: remove_spaces_before_token_rule drops `lTokens[0]` whatever it is -/
+theorem bfix_removeBefore_not_layoutOnly :
+    ∃ old new, Base.fixByOwner Base.removeBeforeOwner [] [] old = some (.ok new) ∧ ¬ LayoutOnly old new :=
+  ⟨[⟨9, .code, "a".toList⟩, ⟨9, .code, "b".toList⟩], [⟨9, .code, "b".toList⟩], by decide +kernel, by decide +kernel⟩
+
+/-- whitespace_001 on a ONE-token region duplicates the token -/
+theorem bfix_ws001_duplicates :
+    Base.fixByOwner Base.ws001Owner [] [("action", .str "remove".toList)] [⟨9, .code, "a".toList⟩]
+      = some (.ok [⟨9, .code, "a".toList⟩, ⟨9, .code, "a".toList⟩]) := by decide +kernel
+
+/-- B-full: `_analyze` of whitespace_between_tokens establishes the guard of its own fix — a violation is
+    recorded under `number_of_spaces = 0` only when `lTokens[1]` is whitespace (TOIs have ≤ 3 tokens) -/
+theorem wsBetween_analysis_establishes_guard (nos : Base.NoS) (l : List Tok) (sp : Base.Val)
+    (ha : Base.WsBetween.analyzeToi nos l = .ok (.spaces sp)) (hlen : l.length ≤ 3) :
+    Base.WsBetween.guard (fun k => k == .ws) nos l = true := by
+  unfold Base.WsBetween.guard Base.WsBetween.touched
+  by_cases h0 : nos = .int 0
+  · subst h0
+    simp only [beq_self_eq_true, if_true]
+    unfold Base.WsBetween.analyzeToi at ha
+    simp only [bind, Except.bind] at ha
+    cases hw : Base.WsBetween.wsAt l with
+    | error e => simp [hw] at ha
+    | ok w =>
+      simp only [hw] at ha
+      cases w with
+      | none => simp [Base.WsBetween.judge, Base.WsBetween.analyzeNoWs] at ha
+      | some n =>
+        unfold Base.WsBetween.wsAt at hw
+        split at hw
+        · cases hw
+        · simp only [bind, Except.bind] at hw
+          cases h1 : Base.pyGet l 1 with
+          | error e => simp [h1] at hw
+          | ok t1 =>
+            simp only [h1, pure, Except.pure] at hw
+            have h1' := Base.pyGet_nat_ok l 1 t1 h1
+            have hk : t1.kind = .ws := by
+              by_cases hk : (t1.kind == Kind.ws) = true
+              · simpa using hk
+              · simp [hk] at hw
+            have hd : l.drop 3 = [] := List.drop_eq_nil_of_le hlen
+            match l, h1' with
+            | a :: y :: rest, h1' =>
+              simp at h1'; subst h1'
+              simp [hd, hk]
+  · have hne : (nos == Base.NoS.int 0) = false := by simpa using h0
+    simp [hne]
+
+/-- the rules served by these models are documented layout rules (whitespace group) -/
+theorem ws_owners_are_layout_rules : ∀ r ∈ Gen.ruleTable, r.fixVOwner ∈ Base.wsOwners →
+    Verdict.effectOfGroups r.groups = .layout := by decide +kernel
+
+/-- … and there are 187 of them -/
+theorem ws_owners_rule_count : (Gen.ruleTable.filter (fun r => decide (r.fixVOwner ∈ Base.wsOwners))).length = 187 := by
+  decide +kernel
+
+/-- a layout-only oddity of spaces_before_and_after_tokens_when_bounded_by_tokens, as the code is:
+    `insert_whitespace(lTokens, self.spaces_before)` / `insert_whitespace(lTokens, len(lTokens) - self.spaces_after)`
+    pass the configured WIDTH as the INDEX (and insert one blank).  Defaults 1 / 4, `:in⏎` with both blanks
+    missing: the "right" blank lands in FRONT of the token before the keyword -/
+example :
+    Base.fixByOwner Base.boundedOwner [("spaces_before", .int 1), ("spaces_after", .int 4)]
+        [("left", .dict [("action", .str "insert".toList)]), ("right", .dict [("action", .str "insert".toList)])]
+        [⟨9, .code, ":".toList⟩, ⟨9, .code, "in".toList⟩, ⟨5, .cr, "\n".toList⟩]
+      = some (.ok [⟨Gen.wsCls, .ws, " ".toList⟩, ⟨9, .code, ":".toList⟩, ⟨Gen.wsCls, .ws, " ".toList⟩, ⟨9, .code, "in".toList⟩, ⟨5, .cr, "\n".toList⟩]) := by
+  decide +kernel
+
+/-- non-vacuity: hypotheses of `bfix_ws_layoutOnly_partial` are satisfiable in the guarded case (`number_of_spaces = 0`
+    on `[left, whitespace, right]`), of `bfix_ws_layoutOnlyW_partial` at comment_100 -/
+example : ∃ old new, Base.fixByOwner Base.wsBetweenOwner [("number_of_spaces", .int 0)] [("spaces", .int 0)] old = some (.ok new) ∧
+    Base.wsGuard (fun k => k.isLayout) Base.wsBetweenOwner [("number_of_spaces", .int 0)] [("spaces", .int 0)] old = true :=
+  ⟨[⟨9, .code, "a".toList⟩, ⟨Gen.wsCls, .ws, "  ".toList⟩, ⟨9, .code, "(".toList⟩],
+   [⟨9, .code, "a".toList⟩, ⟨9, .code, "(".toList⟩], by decide +kernel, by decide +kernel⟩
+example : ∃ old new, Base.fixByOwner Base.comment100Owner [] [("index", .int 2)] old = some (.ok new) ∧
+    Base.wsGuard (fun k => k.isLayout) Base.comment100Owner [] [("index", .int 2)] old = true ∧ old ≠ new :=
+  ⟨[⟨13, .comment, "--c".toList⟩], [⟨13, .comment, "-- c".toList⟩], by decide +kernel, by decide +kernel, by decide +kernel⟩
+
+/-! END ag_bws -/
+
+/-! ### BEGIN ag_bind (indent / vertical spacing / post-phase-1) -/
+
+/-! ### layer B: INDENT family — `token_indent._fix_violation` (102 rules), all actions, styles, sizes,
+    indent levels and token lists -/
+
+/-- what `token_indent._fix_violation` does, whenever it returns: nothing; or keep only the token at
+    index 1 (`remove_whitespace`); or rewrite the VALUE of the FIRST token to an indent string — blanks
+    only or tabs only — keeping its class and every other token (`adjust_whitespace`); or put ONE new
+    whitespace token holding an indent string in front (`add_whitespace`).  Only the token at the start
+    of the line is ever touched. -/
+theorem bfix_indent_shape (owner : String) (params action : Base.KV) (old new : List Tok)
+    (ho : owner ∈ Base.indentOwners) (h : Base.fixByOwner owner params action old = some (.ok new)) :
+    Base.Indent.Shape Gen.wsCls (Base.strAction action) old new := by
+  obtain ⟨style, size, h'⟩ := Base.Bind.indent_fixV_of_owner owner params action old new ho h
+  exact Base.Indent.fixV_shape _ _ _ _ _ _ _ h'
+
+/-- layout-only, under the extractor's contract `ToiOk`: when the action removes tokens everything
+    except the token at index 1 is whitespace, when it rewrites the first token that token is whitespace
+    (`get_tokens_at_beginning_of_line_matching*` returns `[token]` or `[whitespace, token]`) -/
+theorem bfix_indent_layoutOnly_partial (owner : String) (params action : Base.KV) (old new : List Tok)
+    (ho : owner ∈ Base.indentOwners) (h : Base.fixByOwner owner params action old = some (.ok new))
+    (hok : Base.Indent.ToiOk (Base.strAction action) old) : LayoutOnly old new := by
+  obtain ⟨style, size, h'⟩ := Base.Bind.indent_fixV_of_owner owner params action old new ho h
+  exact Base.Indent.fixV_layoutOnly _ _ _ _ _ _ _ h' hok
+
+/-- `add_whitespace` (and every unknown action) is layout-only on EVERY token list -/
+theorem bfix_indent_add_layoutOnly (owner : String) (params action : Base.KV) (old new : List Tok)
+    (ho : owner ∈ Base.indentOwners) (h : Base.fixByOwner owner params action old = some (.ok new))
+    (h1 : Base.strAction action ≠ Base.Indent.sRemove) (h2 : Base.strAction action ≠ Base.Indent.sAdjust) :
+    LayoutOnly old new :=
+  bfix_indent_layoutOnly_partial owner params action old new ho h ⟨fun e => absurd e h1, fun e => absurd e h2⟩
+
+/-- WITHOUT the contract the statement is false: `adjust_whitespace` overwrites the value of whatever
+    token comes first, `remove_whitespace` drops everything but the token at index 1 (replayed on the
+    real class by `props_bind.py`) -/
+theorem bfix_indent_layoutOnly_false :
+    ∃ params action old new, Base.fixByOwner "vsg.rules.token_indent.token_indent" params action old = some (.ok new) ∧
+      ¬ LayoutOnly old new :=
+  ⟨[("indent_size", .int 2), ("indent_style", .str "spaces".toList)],
+   [("_str", .str "adjust_whitespace".toList), ("_indents", .list [.none, .int 1])],
+   [⟨9, .code, "a".toList⟩, ⟨9, .code, "b".toList⟩], [⟨9, .code, "  ".toList⟩, ⟨9, .code, "b".toList⟩],
+   by decide +kernel, by decide +kernel⟩
+
+theorem bfix_indent_remove_layoutOnly_false :
+    ∃ params action old new, Base.fixByOwner "vsg.rules.token_indent.token_indent" params action old = some (.ok new) ∧
+      ¬ LayoutOnly old new :=
+  ⟨[("indent_size", .int 2), ("indent_style", .str "spaces".toList)],
+   [("_str", .str "remove_whitespace".toList)],
+   [⟨9, .code, "a".toList⟩, ⟨9, .code, "b".toList⟩], [⟨9, .code, "b".toList⟩],
+   by decide +kernel, by decide +kernel⟩
+
+/-! ### layer B: VERTICAL-SPACING family (phase 3 blank-line base classes + whitespace_200) -/
+
+/-- the exact change of every blank-line `_fix_violation`, whenever it returns:
+    `[blank_line, CR]` in front (below/"Insert"); `[CR, blank_line]` at the end (above, previous_line
+    /"Insert"); nothing; or a contiguous piece of the old tokens (slices, "Remove" = the empty piece) -/
+theorem bfix_blankline_shape (owner : String) (params action : Base.KV) (old new : List Tok)
+    (ho : owner ∈ Base.blankLineOwners) (h : Base.fixByOwner owner params action old = some (.ok new)) :
+    (old ≠ [] ∧ new = Base.BlankLine.blankTok Gen.blankCls :: Base.BlankLine.crTok Gen.crCls :: old) ∨
+    new = old ++ [Base.BlankLine.crTok Gen.crCls, Base.BlankLine.blankTok Gen.blankCls] ∨
+    new = old ∨
+    ∃ pre suf, Base.BlankLine.Cut old new pre suf :=
+  Base.Bind.blankline_shape owner params action old new ho h
+
+/-- a contiguous piece of `old` is layout-only exactly if the two pieces cut off contain no code / comment -/
+theorem cut_layoutOnly_iff (old new pre suf : List Tok) (c : Base.BlankLine.Cut old new pre suf) :
+    LayoutOnly old new ↔ nonLayout pre = [] ∧ nonLayout suf = [] := c.layoutOnly_iff
+
+/-- layout-only for the whole family, every action, every token list: inserting is always layout-only;
+    when tokens are removed, the region must consist of layout tokens (the contract of the extractors
+    `get_blank_lines_*`, and of whitespace_200's analysis) -/
+theorem bfix_blankline_layoutOnly_partial (owner : String) (params action : Base.KV) (old new : List Tok)
+    (ho : owner ∈ Base.blankLineOwners) (h : Base.fixByOwner owner params action old = some (.ok new))
+    (hreg : new.length < old.length → nonLayout old = []) : LayoutOnly old new := by
+  rcases bfix_blankline_shape owner params action old new ho h with ⟨_, hr⟩ | hr | hr | ⟨pre, suf, c⟩
+  · rw [hr]; exact Base.BlankLine.layoutOnly_insert_front _ _ old
+  · rw [hr]; exact Base.BlankLine.layoutOnly_insert_back _ _ old
+  · rw [hr]; rfl
+  · rw [c.layoutOnly_iff]
+    by_cases hlen : new.length < old.length
+    · have hz := hreg hlen
+      unfold Base.BlankLine.Cut at c
+      rw [c, nonLayout_append, nonLayout_append] at hz
+      simp only [List.append_eq_nil_iff] at hz
+      exact ⟨hz.1.1, hz.2⟩
+    · unfold Base.BlankLine.Cut at c
+      have hl := congrArg List.length c
+      simp only [List.length_append] at hl
+      have h1 : pre = [] := List.eq_nil_of_length_eq_zero (by omega)
+      have h2 : suf = [] := List.eq_nil_of_length_eq_zero (by omega)
+      rw [h1, h2]; exact ⟨rfl, rfl⟩
+
+/-- "Insert" and every unknown action of the three Insert/Remove base classes: layout-only on EVERY
+    token list (no hypothesis) -/
+theorem bfix_blankline_insert_layoutOnly (owner : String) (params action : Base.KV) (old new : List Tok)
+    (ho : owner ∈ Base.blankBelowOwners ++ Base.blankAboveOwners)
+    (h : Base.fixByOwner owner params action old = some (.ok new)) (hlen : old.length ≤ new.length) :
+    LayoutOnly old new := by
+  apply bfix_blankline_layoutOnly_partial owner params action old new _ h (fun hl => by omega)
+  simp only [Base.blankLineOwners, List.mem_append] at ho ⊢
+  rcases ho with ho | ho
+  · exact Or.inl (Or.inl (Or.inl (Or.inl (Or.inl (Or.inl ho)))))
+  · exact Or.inl (Or.inl (Or.inl (Or.inl (Or.inl (Or.inr ho)))))
+
+/-- whitespace_200, exactly: it drops the first `k = clamp (2 · remove)` tokens of the region, whatever
+    they are; the step is layout-only if and only if none of them is a code or comment token -/
+theorem bfix_ws200_layoutOnly_iff (params action : Base.KV) (old new : List Tok) (remove : Int)
+    (hr : Base.actTwice action "remove" = .ok remove)
+    (h : Base.fixByOwner "vsg.rules.whitespace.rule_200.rule_200" params action old = some (.ok new)) :
+    new = old.drop (Base.BlankLine.pyClamp old.length (2 * remove)) ∧
+    (LayoutOnly old new ↔ nonLayout (old.take (Base.BlankLine.pyClamp old.length (2 * remove))) = []) := by
+  rw [Base.fixByOwner_ws200 _ params action old (by simp [Base.ws200Owners])] at h
+  simp only [Option.some.injEq, hr, bind, Except.bind, Base.BlankLine.ws200FixV, pure, Except.pure,
+    Except.ok.injEq] at h
+  subst h
+  refine ⟨rfl, ?_⟩
+  rw [(Base.BlankLine.sliceFrom_cut old (2 * remove)).layoutOnly_iff]
+  exact ⟨fun hh => hh.1, fun hh => ⟨hh, rfl⟩⟩
+
+/-- **whitespace_200 is NOT layout-only** (genuine defect of the pinned tree): the analysis counts every
+    `blank_line` token as a two-token line `blank_line, CR` and the fix drops `2 · remove` tokens from the
+    first counted `blank_line` on; a `blank_line` token left in the middle of a line by an earlier
+    line-joining fix (here: before `others`) makes it drop the CODE token that follows -/
+theorem bfix_ws200_layoutOnly_false :
+    ∃ params action old new, Base.fixByOwner "vsg.rules.whitespace.rule_200.rule_200" params action old = some (.ok new) ∧
+      ¬ LayoutOnly old new ∧ codeSeq id old ≠ codeSeq id new :=
+  ⟨[], [("remove", .int 1)],
+   [⟨Gen.blankCls, .blank, []⟩, ⟨9, .code, "others".toList⟩, ⟨9, .code, ";".toList⟩, ⟨Gen.crCls, .cr, ['\n']⟩,
+    ⟨Gen.blankCls, .blank, []⟩, ⟨Gen.crCls, .cr, ['\n']⟩],
+   [⟨9, .code, ";".toList⟩, ⟨Gen.crCls, .cr, ['\n']⟩, ⟨Gen.blankCls, .blank, []⟩, ⟨Gen.crCls, .cr, ['\n']⟩],
+   by decide +kernel, by decide +kernel, by decide +kernel⟩
+
+/-- the guard under which whitespace_200 (and every other slicing blank-line rule) is layout-only: the
+    region consists of `blank_line, CR` pairs — then what is removed and what stays are such pairs too -/
+theorem bfix_ws200_layoutOnly_partial (params action : Base.KV) (old new : List Tok)
+    (h : Base.fixByOwner "vsg.rules.whitespace.rule_200.rule_200" params action old = some (.ok new))
+    (hp : Base.BlankLine.blankPairs old = true) :
+    LayoutOnly old new ∧ Base.BlankLine.blankPairs new = true ∧
+      ∃ removed, old = removed ++ new ∧ Base.BlankLine.blankPairs removed = true := by
+  have h0 := h
+  rw [Base.fixByOwner_ws200 _ params action old (by simp [Base.ws200Owners])] at h
+  simp only [Option.some.injEq] at h
+  cases hr : Base.actTwice action "remove" with
+  | error e => simp [hr, bind, Except.bind] at h
+  | ok remove =>
+    obtain ⟨hnew, hiff⟩ := bfix_ws200_layoutOnly_iff params action old new remove hr h0
+    obtain ⟨n, hn⟩ := Base.BlankLine.blankPairs_even old hp
+    obtain ⟨m, hm⟩ := Base.BlankLine.pyClamp_two_mul n remove
+    rw [hn, hm] at hnew hiff
+    refine ⟨hiff.mpr (Base.BlankLine.blankPairs_layout _ (Base.BlankLine.blankPairs_take old m hp)), ?_, ?_⟩
+    · rw [hnew]; exact Base.BlankLine.blankPairs_drop old m hp
+    · exact ⟨old.take (2 * m), by rw [hnew]; simp, Base.BlankLine.blankPairs_take old m hp⟩
+
+/-- the rules that cut at an even position (`2 · remove`), insert in front, or delete the region: a
+    region made of `blank_line, CR` pairs stays one — whole blank LINES are inserted / removed -/
+theorem bfix_blankline_pairs (owner : String) (params action : Base.KV) (old new : List Tok)
+    (ho : owner ∈ Base.blankBelowOwners ++ Base.excessBelowOwners ++ Base.ws200Owners ++ Base.betweenPairsOwners)
+    (h : Base.fixByOwner owner params action old = some (.ok new))
+    (hp : Base.BlankLine.blankPairs old = true) : Base.BlankLine.blankPairs new = true := by
+  simp only [List.mem_append] at ho
+  rcases ho with ((ho | ho) | ho) | ho
+  · rw [Base.fixByOwner_below owner params action old ho] at h
+    simp only [Option.some.injEq] at h
+    cases ha : Base.dictAction action with
+    | error e => simp [ha, bind, Except.bind] at h
+    | ok a =>
+      simp only [ha, bind, Except.bind] at h
+      rcases Base.BlankLine.belowFixV_cases _ _ _ _ _ h with ⟨_, _, hr⟩ | ⟨_, hr⟩ | hr
+      · rw [hr]; simpa [Base.BlankLine.blankPairs, Base.BlankLine.blankTok, Base.BlankLine.crTok] using hp
+      · rw [hr]; rfl
+      · rw [hr]; exact hp
+  · rw [Base.fixByOwner_excessBelow owner params action old ho] at h
+    simp only [Option.some.injEq] at h
+    cases ha : Base.actTwice action "remove" with
+    | error e => simp [ha, bind, Except.bind] at h
+    | ok r =>
+      simp only [ha, bind, Except.bind, Base.BlankLine.excessBelowFixV, pure, Except.pure, Except.ok.injEq] at h
+      obtain ⟨n, hn⟩ := Base.BlankLine.blankPairs_even old hp
+      obtain ⟨m, hm⟩ := Base.BlankLine.pyClamp_two_mul n r
+      rw [← h, Base.BlankLine.sliceTo, hn, hm]
+      exact Base.BlankLine.blankPairs_take old m hp
+  · rw [Base.fixByOwner_ws200 owner params action old ho] at h
+    simp only [Option.some.injEq] at h
+    cases ha : Base.actTwice action "remove" with
+    | error e => simp [ha, bind, Except.bind] at h
+    | ok r =>
+      simp only [ha, bind, Except.bind, Base.BlankLine.ws200FixV, pure, Except.pure, Except.ok.injEq] at h
+      obtain ⟨n, hn⟩ := Base.BlankLine.blankPairs_even old hp
+      obtain ⟨m, hm⟩ := Base.BlankLine.pyClamp_two_mul n r
+      rw [← h, Base.BlankLine.sliceFrom, hn, hm]
+      exact Base.BlankLine.blankPairs_drop old m hp
+  · rw [Base.fixByOwner_betweenPairs owner params action old ho] at h
+    simp only [Option.some.injEq, Base.BlankLine.betweenPairsFixV, pure, Except.pure, Except.ok.injEq] at h
+    rw [← h]; rfl
+
+/-- "Remove" is not layout-only on arbitrary tokens of interest either: `set_tokens([])` -/
+theorem bfix_blankline_remove_layoutOnly_false :
+    ∃ params action old new,
+      Base.fixByOwner "vsg.rules.previous_line.previous_line" params action old = some (.ok new) ∧ ¬ LayoutOnly old new :=
+  ⟨[], [("action", .str "Remove".toList)], [⟨9, .code, "a".toList⟩], [], by decide +kernel, by decide +kernel⟩
+
+/-- `blank_lines_between_token_pairs` (concurrent_010) is not layout-only either (genuine defect of the
+    pinned tree): its analysis extracts "the `blank_line` token and the token after it" and the fix
+    deletes both; after a phase-1 line-joining fix left a `blank_line` token in the middle of a line the
+    token after it is CODE (`others` in the reproduction) -/
+theorem bfix_betweenPairs_layoutOnly_false :
+    ∃ params action old new,
+      Base.fixByOwner "vsg.rules.blank_lines_between_token_pairs.blank_lines_between_token_pairs" params action old =
+        some (.ok new) ∧ ¬ LayoutOnly old new ∧ codeSeq id old ≠ codeSeq id new :=
+  ⟨[], [("_none", .none)], [⟨Gen.blankCls, .blank, []⟩, ⟨9, .code, "others".toList⟩], [],
+   by decide +kernel, by decide +kernel, by decide +kernel⟩
+
+/-- the rules served by the two families are documented layout rules (indent / blank_line / whitespace groups) -/
+theorem bind_owners_are_layout_rules : ∀ r ∈ Gen.ruleTable,
+    r.fixVOwner ∈ Base.indentOwners ++ Base.blankLineOwners → Verdict.effectOfGroups r.groups = .layout := by
+  decide +kernel
+
+/-- … and the families are not empty: 102 indent rules, 88 vertical-spacing rules -/
+theorem bind_owner_counts :
+    (Gen.ruleTable.filter (fun r => decide (r.fixVOwner ∈ Base.indentOwners))).length = 102 ∧
+    (Gen.ruleTable.filter (fun r => decide (r.fixVOwner ∈ Base.blankLineOwners))).length = 88 := by
+  decide +kernel
+
+/-! ### the post-phase-1 normalisation (`fix_blank_lines`, `fix_trailing_whitespace`), every token list -/
+
+/-- `postPhase1_layout`: both passes and their composition change only whitespace / blank_line tokens
+    (code, comments kept) and keep every carriage return -/
+theorem postPhase1_layout (blCls : Nat) (l : List Tok) :
+    LayoutOnly l (Post.fixBlankLines blCls l) ∧ crSeq (Post.fixBlankLines blCls l) = crSeq l ∧
+    LayoutOnly l (Post.fixTrailingWhitespace l) ∧ crSeq (Post.fixTrailingWhitespace l) = crSeq l ∧
+    LayoutOnly l (Post.postPhase1 blCls l) ∧ crSeq (Post.postPhase1 blCls l) = crSeq l := by
+  unfold LayoutOnly Post.postPhase1
+  simp only [Post.fixBlankLines_eq, Post.fixTrailingWhitespace_eq, Post.fblGo_nonLayout, Post.fblGo_crSeq,
+    Post.ftwGo_nonLayout, Post.ftwGo_crSeq, and_self]
+
+/-- `fix_blank_lines` is idempotent on every token list (the wrap-around `lTokens[-1]` at index 0
+    and the IndexError at the last token included) -/
+theorem postPhase1_fixBlankLines_idem (blCls : Nat) (l : List Tok) :
+    Post.fixBlankLines blCls (Post.fixBlankLines blCls l) = Post.fixBlankLines blCls l :=
+  Post.fixBlankLines_idem blCls l
+
+/-- `fix_trailing_whitespace` is NOT idempotent on every token list: it pops one token per carriage
+    return, so of two adjacent whitespace tokens before a line break one survives the first pass -/
+theorem postPhase1_fixTrailingWhitespace_idem_false :
+    ∃ l, Post.fixTrailingWhitespace (Post.fixTrailingWhitespace l) ≠ Post.fixTrailingWhitespace l :=
+  ⟨[⟨Gen.wsCls, .ws, [' ']⟩, ⟨Gen.wsCls, .ws, [' ']⟩, ⟨Gen.crCls, .cr, ['\n']⟩], by decide +kernel⟩
+
+/-- … and idempotent on every token list without `whitespace whitespace CR` (the tokenizer never
+    produces two adjacent whitespace tokens) -/
+theorem postPhase1_fixTrailingWhitespace_idem_partial (l : List Tok) (h : Post.noWsWsCr l = true) :
+    Post.fixTrailingWhitespace (Post.fixTrailingWhitespace l) = Post.fixTrailingWhitespace l :=
+  Post.fixTrailingWhitespace_idem l h
+
+/-- the whole fix run keeps code and comments if every invoked rule does: the `post` step never breaks it -/
+theorem fixRun_nonLayout_post (rs : List Rule) (fixPhase : Nat) (skip : List Nat) (fo : Option FixOnly)
+    (blCls : Nat) (f : List Tok)
+    (hr : ∀ r, some r ∈ schedule rs fixPhase skip → r.1.sevError = true → r.1.fixable = true →
+      ∀ g, nonLayout g = nonLayout f → nonLayout (ruleFix r.1 r.2 fo g).1 = nonLayout f) :
+    nonLayout (fixRun rs fixPhase skip fo (Post.postPhase1 blCls) f).1 = nonLayout f :=
+  fixRun_invariant (fun g => nonLayout g = nonLayout f) rs fixPhase skip fo _ f rfl hr
+    (fun g hg => by rw [← (postPhase1_layout blCls g).2.2.2.2.1]; exact hg)
+
+example : Base.fixByOwner "vsg.rules.token_indent.token_indent"
+    [("indent_size", .int 2), ("indent_style", .str "spaces".toList)]
+    [("_str", .str "adjust_whitespace".toList), ("_indents", .list [.none, .int 2])]
+    [⟨Gen.wsCls, .ws, " ".toList⟩, ⟨9, .code, "b".toList⟩] =
+    some (.ok [⟨Gen.wsCls, .ws, "    ".toList⟩, ⟨9, .code, "b".toList⟩]) := by decide +kernel
+example : Base.Indent.ToiOk "adjust_whitespace".toList [⟨Gen.wsCls, .ws, " ".toList⟩, ⟨9, .code, "b".toList⟩] :=
+  ⟨fun h => absurd h (by decide), fun _ t ht => by simp [List.head?] at ht; subst ht; rfl⟩
+example : Post.fixBlankLines Gen.blankCls [⟨Gen.wsCls, .ws, [' ']⟩, ⟨Gen.crCls, .cr, ['\n']⟩] =
+    [⟨Gen.blankCls, .blank, []⟩, ⟨Gen.crCls, .cr, ['\n']⟩] := by decide +kernel
+example : Post.noWsWsCr [⟨Gen.wsCls, .ws, [' ']⟩, ⟨Gen.crCls, .cr, ['\n']⟩] = true := by decide
+
+/-! ### END ag_bind -/
 
 end Vsgm.C03
